@@ -32,6 +32,9 @@ PRE = {
     "upd": [("upd", ("tag", "k", "==", "a"), {"fields": {"g": 3}, "measurement": "n"})],
     "drop": [("drop", "n")],
     "rmall_ins": [("rmall",), ("ins", {"time": SYM, "meas": "m", "tags": {"k": "a"}, "fields": {"f": 1}})],
+    # an update that fails half-way (its callable raises a RuntimeError on the second selected point; a static tag
+    # edit has already been applied to the first)
+    "upd_fail": [("upd_fail", ("tag", "k", "!=", "zz"), "fields")],
 }
 
 
